@@ -281,6 +281,34 @@ func genC01(e *emitter, tier string, seed uint64) {
 		emitBytesOps(e, tx.Bytes(), "boundary-std")
 		emitBytesOps(e, tx.ExtendedBytes(), "boundary-ext")
 	}
+	// (2b) script fields beyond the decoder's read-chunk size (65536), random content, in every position:
+	// a chunked reader that mixes up its buffers shows only when the chunks differ
+	bigLens := []int{65536, 65537, 131073}
+	if !quick {
+		bigLens = append(bigLens, 131072, 200000, 65536*3+1)
+	}
+	for _, l := range bigLens {
+		for pos := 0; pos < 3; pos++ {
+			tx := genTx(r, 1, 1, false)
+			tx.Inputs[0].PreviousTxSatoshis = r.u64edge()
+			tx.Inputs[0].PreviousTxScript = scr(r.bytes(3))
+			switch pos {
+			case 0:
+				tx.Inputs[0].UnlockingScript = scr(r.bytes(l))
+			case 1:
+				tx.Outputs[0].LockingScript = scr(r.bytes(l))
+			default:
+				tx.Inputs[0].PreviousTxScript = scr(r.bytes(l))
+			}
+			e.run("C01.ser", descTx(tx))
+			emitBytesOps(e, tx.Bytes(), "bigscript-std")
+			emitBytesOps(e, tx.ExtendedBytes(), "bigscript-ext")
+			if pos == 1 {
+				cnt := append([]byte{2}, tx.Bytes()...)
+				e.run("C01.txs", hex.EncodeToString(append(cnt, tx.Bytes()...)))
+			}
+		}
+	}
 	// (3) the ambiguous shape and its neighbours
 	for _, lt := range []uint32{0xEF000000, 0xEF, 0xEF000001, 0xEE000000} {
 		for _, v := range []uint32{0, 1, 0xffffffff} {
